@@ -424,6 +424,15 @@ def state_classes():
         h = [0xff] * 16 + be(L, 2) + [2]
         for p in (1, 16, 17, 18):
             add('limit_header_in_pieces', cd, [h[:p], h[p:] + fill(40), k])
+        # ... and after a frame that itself came in two pieces (nothing learnt while waiting may relax the check)
+        for p in (19, 20, len(a) - 1):
+            add('limit_after_partial_frame', cd, [a[:p], a[p:] + h + fill(40), k])
+            add('limit_after_partial_frame', cd, [a[:p], a[p:], h[:10], h[10:] + fill(40), k])
+    # header length below 19 after a frame that came in pieces
+    for cd in (C4, CX):
+        for Lb in (0, 18):
+            h = [0xff] * 16 + be(Lb, 2) + [4]
+            add('short_header_after_partial_frame', cd, [a[:30], a[30:] + h, k])
     return out
 
 def rtr_state_classes():
